@@ -8,6 +8,8 @@ import (
 	"sort"
 	"sync"
 	"sync/atomic"
+
+	"github.com/cnotch/ipchub/utils/verifhook"
 )
 
 type consumptions struct {
@@ -31,6 +33,7 @@ func (m *consumptions) RemoveAndCloseAll() {
 		return true
 	})
 
+	verifhook.Point("sweep.zero", 0)
 	atomic.StoreInt32(&m.count, 0)
 }
 
@@ -42,6 +45,7 @@ func (m *consumptions) Add(c *consumption) {
 func (m *consumptions) Remove(cid CID) *consumption {
 	ci, ok := m.Load(cid)
 	if ok {
+		verifhook.Point("remove.loaded", uint32(cid))
 		m.Delete(cid)
 		atomic.AddInt32(&m.count, -1)
 		return ci.(*consumption)
